@@ -50,7 +50,7 @@ int ops_gen_core(int argc, char **argv, FILE *out) {
         return 1;
     }
     if(!cur_td && (!strcmp(op, "descr") || !strcmp(op, "enc") || !strcmp(op, "dec") || !strcmp(op, "rt") || !strcmp(op, "decchunks")
-                   || !strcmp(op, "check") || !strcmp(op, "cmp") || !strcmp(op, "transcode") || !strcmp(op, "echo"))) {
+                   || !strcmp(op, "decq") || !strcmp(op, "check") || !strcmp(op, "cmp") || !strcmp(op, "transcode") || !strcmp(op, "echo"))) {
         fputs("no-type", out); return 1;
     }
     if(!strcmp(op, "descr")) { rf_dump_descr(cur_td, out); return 1; }
@@ -72,7 +72,7 @@ int ops_gen_core(int argc, char **argv, FILE *out) {
         ASN_STRUCT_FREE(*cur_td, st); free(v);
         return 1;
     }
-    if(!strcmp(op, "dec") && argc == 3) {
+    if((!strcmp(op, "dec") || !strcmp(op, "decq")) && argc == 3) {
         enum asn_transfer_syntax syn = gen_syntax(argv[1], 1);
         size_t len; uint8_t *b = hx_parse_exact(argv[2], &len);
         if(!b) { fputs("bad-op", out); return 1; }
@@ -80,7 +80,7 @@ int ops_gen_core(int argc, char **argv, FILE *out) {
         asn_dec_rval_t rv = asn_decode(0, syn, cur_td, &st, b, len);
         fprintf(out, "%s %zu ", gen_rc_name(rv.code), rv.consumed);
         if(rv.code == RC_OK && st) rf_dump(cur_td, st, out); else fputc('-', out);
-        gen_exercise(cur_td, st);
+        if(strcmp(op, "decq")) gen_exercise(cur_td, st);   /* decq: decode only */
         ASN_STRUCT_FREE(*cur_td, st);
         free(b);
         return 1;
